@@ -208,6 +208,16 @@ func (m *Manager) AddBinding(mac net.HardwareAddr, ipv4 net.IP) error {
 		Mode: uint8(m.mode),
 	}
 
+	// Keep an IPv6 binding added earlier for this MAC (AddBindingV6 preserves
+	// the IPv4 part the same way)
+	if m.bindings != nil {
+		var existing SubscriberBinding
+		if err := m.bindings.Lookup(&macKey, &existing); err == nil {
+			binding.IPv6Addr = existing.IPv6Addr
+			binding.IPv6Valid = existing.IPv6Valid
+		}
+	}
+
 	if ipv4 != nil {
 		ip4 := ipv4.To4()
 		if ip4 != nil {
